@@ -22,6 +22,7 @@ _case_counter = [0]
 
 def run_case(case, **kw):
     """Execute case = {"prog", "tape", "clock"} and return (scheduler, world)."""
+    world.HASH_SALT[0] = int(case.get("hsalt", 0))
     s, w = world.execute(
         case["prog"],
         tape=case.get("tape", ()),
